@@ -248,3 +248,16 @@ Definition warm_gap_classb (c : cache) (w : world) (p : pkg) : bool :=
                                (filter (fun s => mem s (w_js w)) (p_entry p)))
   | None => false
   end.
+
+(* known class F-C12b, narrowed: every package on which the cache disagrees with tracing the
+   current sources is served from a valid FAILED entry (a failed entry hashes only the modules up
+   to the first error).  A disagreement on a successful entry is outside the class. *)
+Definition stale_failed_onlyb (c : cache) (w : world) : bool :=
+  forallb (fun p => pkg_agrees c w p
+                    || match find_pkg (w_pkgs w) (p_nv p) with
+                       | Some q => match cache_hit (Some c) w q with
+                                   | Some e => failed_entry e
+                                   | None => false
+                                   end
+                       | None => false
+                       end) (w_pkgs w).
